@@ -252,6 +252,15 @@ def run(src, tier, seed):
             if n.get('k') == 'bin' and n['op'] == '=' and (path_of(n['l']) or '').endswith('conflict_frame'):
                 writers.add(f['name'])
     res.extra['conflict_frame_writers'] = sorted(writers)
+    # the verdict state set at an assumption conflict (ok = false happens in the same engines) is reset as a whole when a level is popped
+    ro = fx.func('opensmt::CoreSMTSolver::restoreOK')
+    reset = {(path_of(n['l']) or '').split('.')[-1] for n in fwalk(ro) if n.get('k') == 'bin' and n['op'] == '='}
+    need = {'ok', 'conflict_frame'}
+    if need <= reset:
+        res.ok(r, 'restoreOK resets %s' % sorted(need))
+    else:
+        res.bad(r, 'conflict-frame:restoreOK-partial', fx.loc(ro), 'CoreSMTSolver::restoreOK resets %s but not %s: the conflict frame of a popped unsat level survives and a later '
+                'unsat verdict is attributed to the wrong level' % (sorted(reset), sorted(need - reset)))
 
     # ---- R10 per-check reset
     r = res.rule('per-check-reset', 'each engine declares the current variables to the theories (clearing theory state) before searching, and MainSolver::solve clears the search after every solve_', floor=3)
